@@ -449,11 +449,18 @@ class Queue(Greenlet):
         else:
             self.store.remove(id)
 
-    def _dispatch(self, id):
-        # The id counts as active from the moment it leaves the timetable, so
-        # that a repeated announcement of it cannot be queued a second time.
-        if id not in self.active_ids:
-            self.active_ids.add(id)
+    def _dispatch(self, ids):
+        # The ids count as active from the moment they leave the timetable, so
+        # that a repeated announcement of one of them cannot be queued a second
+        # time. All of them are marked before the first spawn: with a bounded
+        # store pool a spawn waits for a free slot, and meanwhile other
+        # greenlets add to the timetable.
+        fresh = []
+        for id in ids:
+            if id not in self.active_ids:
+                self.active_ids.add(id)
+                fresh.append(id)
+        for id in fresh:
             self._pool_spawn('store', self._dequeue, id)
 
     def _dequeue(self, id):
@@ -471,13 +478,14 @@ class Queue(Greenlet):
         for i, entry in enumerate(self.queued):
             timestamp, entry_id = entry
             if now >= timestamp:
-                self._dispatch(entry_id)
                 last_i = i+1
             else:
                 break
         if last_i > 0:
+            ready = self.queued[:last_i]
             self.queued = self.queued[last_i:]
             self.queued_ids = set([id for _, id in self.queued])
+            self._dispatch([id for _, id in ready])
 
     def _wait_store(self):
         while True:
@@ -512,10 +520,10 @@ class Queue(Greenlet):
         self.wake.clear()
         self.queued_lock.acquire()
         try:
-            for entry in self.queued:
-                self._dispatch(entry[1])
+            ready = self.queued
             self.queued = []
             self.queued_ids = set()
+            self._dispatch([id for _, id in ready])
         finally:
             self.queued_lock.release()
 
